@@ -218,8 +218,25 @@ def _mixin_render(alias, shape, attr, cls):
     return _r
 
 
-mixin_render_wrapped = _mixin_render("wrapped-widget", WRAP, "_wrapped_widget", urwid.WidgetWrap.__mro__[1])
-mixin_render_original = _mixin_render("original-widget", PLACEHOLDER, "_original_widget", _wd.WidgetPlaceholder.__mro__[1])
+def _mixin_class_of(cls):
+    """The class `delegate_to_widget_mixin(name)` made for `cls` (each call of the factory makes its own)."""
+    return next(c for c in cls.__mro__ if c.__qualname__ == "delegate_to_widget_mixin.<locals>.DelegateToWidgetMixin")
+
+
+from urwid.widget import attr_map as _attr_map, line_box as _line_box, popup as _popup0  # noqa: E402
+
+# every bundled class that is built on the mixin: (alias, class, delegate attribute); WidgetWrap's subclasses (Button,
+# CheckBox, GridFlow, TreeWidget ...) share WidgetWrap's mixin class
+MIXIN_USERS = (
+    ("wrapped-widget", urwid.WidgetWrap, "_wrapped_widget"),
+    ("original-widget", _wd.WidgetPlaceholder, "_original_widget"),
+    ("AttrMap", _attr_map.AttrMap, "_original_widget"),
+    ("PopUpLauncher", _popup0.PopUpLauncher, "_original_widget"),
+    ("LineBox", _line_box.LineBox, "_wrapped_widget"),
+)
+for _alias, _cls, _attr in MIXIN_USERS:
+    if _alias not in ("AttrMap", "PopUpLauncher"):  # (their own render: contracts/C17_attrs.py, launcher_render below)
+        _mixin_render(_alias, Obj(_cls, {_attr: WIDGET}), _attr, _mixin_class_of(_cls))
 
 
 def _is_bound_method_of(result, w, name):
@@ -246,9 +263,14 @@ def _mixin_getter(name, alias, shape, attr, cls):
     return _g
 
 
+import inspect as _inspect  # noqa: E402
+
 for _n in ("rows", "pack", "sizing", "selectable"):
-    _mixin_getter(_n, "wrapped-widget", WRAP, "_wrapped_widget", urwid.WidgetWrap.__mro__[1])
-    _mixin_getter(_n, "original-widget", PLACEHOLDER, "_original_widget", _wd.WidgetPlaceholder.__mro__[1])
+    for _alias, _cls, _attr in MIXIN_USERS:
+        # only where the class really gets the attribute from its mixin (LineBox takes sizing / selectable from
+        # WidgetDecoration, which comes first in its MRO; AttrMap / PopUpLauncher override render but not these)
+        if _inspect.getattr_static(_cls, _n) is _inspect.getattr_static(_mixin_class_of(_cls), _n):
+            _mixin_getter(_n, _alias, Obj(_cls, {_attr: WIDGET}), _attr, _mixin_class_of(_cls))
 
 
 # ============================================================================================ WidgetDecoration / WidgetDisable: sizing
